@@ -169,7 +169,9 @@ def plan(pid: str, tier: str, seed: int) -> dict:
             jobs=lambda refs: [{"kind": "schedule", "prog": p, "seeds": s, "opts": {"p_withhold": 0.2}}
                                for p in progs for s in chunks(range(seed * 1000, seed * 1000 + nseed), 10)],
             mc=[(n, {"AnyOrder": "TRUE", "MaxWithhold": 1}, {}) for n in
-                ("failbranch", "firstoffail", "termchain", "cof", "selfloop", "mmfail")]
+                (("failbranch", "termchain", "cof", "selfloop") if quick else
+                 ("failbranch", "firstoffail", "termchain", "cof", "selfloop", "mmfail"))]
+               + [(n, {"AnyOrder": "TRUE"}, {}) for n in ("firstoffail", "mmfail", "quorumfail")]
                + ([] if quick else [(n, {"AnyOrder": "TRUE", "MaxWithhold": 2}, {"depth": 70}) for n in
                                     ("quorumfail", "firstof", "quorumimpossible", "cycle2")]),
         )
@@ -185,8 +187,11 @@ def plan(pid: str, tier: str, seed: int) -> dict:
                                  for pts in chunks(range(1, refs[p["name"]]["commits"] + 1, 3 if quick else 1), 24)]
                               + [{"kind": "inject", "prog": p, "what": "cancel", "at": at}
                                  for p in core for at in chunks(range(1, refs[p["name"]]["steps"] + 1, 2), 12)],
-            mc=[(n, {"AnyOrder": "TRUE", "MaxWithhold": 1, "MaxEarly": 1}, {}) for n in ("diamond", "selfloop", "failbranch")]
-               + [(n, {"AnyOrder": "FALSE", "MaxCrashes": 1, "MaxCancels": 1}, {}) for n in ("chain2", "cycle2")],
+            mc=[("diamond", {"AnyOrder": "TRUE", "MaxEarly": 1}, {}), ("selfloop", {"AnyOrder": "TRUE", "MaxWithhold": 1}, {}),
+                ("failbranch", {"AnyOrder": "TRUE"}, {}), ("chain2", {"AnyOrder": "FALSE", "MaxCrashes": 1, "MaxCancels": 1}, {}),
+                ("cycle2", {"AnyOrder": "FALSE", "MaxCrashes": 1}, {})]
+               + ([] if quick else [("diamond", {"AnyOrder": "TRUE", "MaxWithhold": 1, "MaxEarly": 1}, {}),
+                                    ("failbranch", {"AnyOrder": "TRUE", "MaxWithhold": 1, "MaxCancels": 1}, {"depth": 60})]),
         )
     if pid == "C09":
         progs = [PR.by_name(n) for n in (("chain2", "diamond", "poll", "selfloop", "failbranch") if quick else CORE)]
